@@ -175,3 +175,13 @@ func NE(a, b string) string {
 	}
 	return "(" + a + " != " + b + ")"
 }
+
+// patLE: the fact a <= b, or the stronger a < b.
+func patLE(a, b string) string {
+	return `^\(` + regexp.QuoteMeta(a) + ` <=? ` + regexp.QuoteMeta(b) + `\)$`
+}
+
+// patLT: the fact a < b (also written a+1 <= b).
+func patLT(a, b string) string {
+	return `^\(` + regexp.QuoteMeta(a) + ` < ` + regexp.QuoteMeta(b) + `\)$|^\(\(1 \+ ` + regexp.QuoteMeta(a) + `\) <= ` + regexp.QuoteMeta(b) + `\)$`
+}
